@@ -401,4 +401,83 @@ def str_slice_guarded(fn, site):
         # both facts must hold on the taken branch: the condition is a conjunction of them (no `||`)
         if K is not None and ascii_ and hi <= K and not any(y.get("k") == "Binary" and y["op"] == "||" for y in core.walk(x["c"])):
             return f"STR: slice {lo}..{hi} of an ASCII string of exactly {K} bytes"
+    # guard-clause form: `if s.len() != K || !s.is_ascii() { return .. }` before the slice (a disjunction of the two
+    # negated facts whose branch diverges)
+    for x in core.walk_fn(fn, into_closures=False):
+        if x.get("k") != "If" or "f" in x or any(y is n for y in core.walk(x)):
+            continue
+        if not any(y.get("k") == "Ret" for y in core.walk(x["t"])):
+            continue
+        try:
+            before = int(x["sp"].split(":")[1]) < int(n["sp"].split(":")[1])
+        except (ValueError, IndexError, KeyError):
+            before = False
+        if not before:
+            continue
+        K = None
+        nascii = False
+        ok_shape = True
+        for y in core.walk(x["c"]):
+            if y.get("k") == "Binary" and y["op"] == "&&":
+                ok_shape = False
+            if y.get("k") == "Binary" and y["op"] == "!=":
+                for a, b in ((y["l"], y["r"]), (y["r"], y["l"])):
+                    a0 = core.strip(a)
+                    if a0.get("k") == "MethodCall" and a0["m"] == "len" and core.strip(a0["recv"]).get("lid") == lid and const_int(b) is not None:
+                        K = const_int(b)
+            if y.get("k") == "Unary" and y.get("op") == "!":
+                z = core.strip(y["e"])
+                if z.get("k") == "MethodCall" and z["m"] == "is_ascii" and core.strip(z["recv"]).get("lid") == lid:
+                    nascii = True
+        if ok_shape and K is not None and nascii and hi <= K:
+            return f"STR: slice {lo}..{hi} after the function returned unless the string is ASCII and exactly {K} bytes"
     return None
+
+
+def counter_max(fn, expr):
+    """(polynomial, maximum) of an integer expression that is a polynomial with non-negative coefficients in the
+    counters of the enclosing loops over constant-length arrays / literal ranges (lets unfolded); None otherwise"""
+    lets = imm_lets(fn)
+    env = {}
+    ranges = {}
+    for x in core.walk_fn(fn):
+        fl = core.as_for(x)
+        if fl is None or x.get("k") == "DropTemps" or not any(y is expr for y in core.walk(fl[2])):
+            continue
+        pat, it = fl[0], core.strip(fl[1])
+        if it.get("k") == "MethodCall" and it["m"] == "enumerate" and pat.get("k") == "Tuple" and pat["pats"] and pat["pats"][0].get("k") == "Binding":
+            src = core.strip(it["recv"])
+            while src.get("k") == "MethodCall" and src["m"] in ("iter", "iter_mut", "into_iter", "copied", "cloned") and not src["args"]:
+                src = core.strip(src["recv"])
+            ty = (src.get("ty") or "").lstrip("&").replace("mut ", "").strip()
+            m = re.match(r"^\[.*; (\d+)\]$", ty)
+            if m:
+                sname = f"k{pat['pats'][0]['lid']}"
+                env[pat["pats"][0]["lid"]] = Poly.sym(sname)
+                ranges[sname] = int(m.group(1))
+        if it.get("k") == "Struct" and it.get("def") == "core::ops::range::Range" and pat.get("k") == "Binding":
+            f = {q["f"]: q["e"] for q in it["fields"]}
+            lo, hi = const_int(f["start"]), const_int(f["end"])
+            if lo == 0 and isinstance(hi, int):
+                sname = f"k{pat['lid']}"
+                env[pat["lid"]] = Poly.sym(sname)
+                ranges[sname] = hi
+
+    def ev(e, depth=0):
+        e0 = core.strip(e)
+        for y in core.walk(e0):
+            if y.get("k") == "Path" and y.get("res") == "local" and y["lid"] not in env and y["lid"] in lets and depth < 6:
+                env[y["lid"]] = ev(lets[y["lid"]], depth + 1)
+        return algebra.poly_eval(e0, env)
+    try:
+        p = ev(expr)
+    except NotAffine:
+        return None
+    if not _nonneg(p):
+        return None
+    q = p
+    for sname, hi in ranges.items():
+        q = _subst(q, sname, Poly.const(max(hi - 1, 0)))
+    if any(mono for mono in q.d if mono):
+        return None
+    return p, q.d.get((), 0)
